@@ -122,11 +122,12 @@ reference run of the very case, "gen" = flag set by the generator)
  exponent number formatting, following:: from attributes, namespace axis
  with xmlns="", id() token order.
 
-Results with the final reference (disjoint seed ranges, default mode):
-100 000 cases: 96 115 agree exactly, 508 differ with a trigger of a class
-above (73 of them builtin-params, verified by emulation), 3 377
-XSLTUnsupported, 0 unexplained; --deviant 60 000 cases: 54 655 agree, 1 479
-explained, 3 866 unsupported, 0 unexplained.
+Results with the final reference (disjoint seed ranges):
+default mode, 100 000 cases: 95 882 agree exactly (trees and namespace scope),
+780 differ with a trigger of a class above (421 differ + 32 libxslt errors +
+327 namespace-scope only; builtin-params verified by emulation), 3 338
+XSLTUnsupported (xsl:number corner cases of ref_xslt B5 mostly), 0 unexplained,
+0 reference errors.  --deviant: see the component report.
 """
 import argparse
 import os
